@@ -685,6 +685,28 @@ class WorkerInterp:
                 for val in test.values:
                     self.refine(val, False, state)
             else:
+                # `x is not None and not isinstance(x, Mapping)` FALSE: x is
+                # None or a mapping - the accepting outcome of the test
+                if isinstance(test.op, ast.And) and not outcome and len(
+                        test.values) == 2:
+                    one, two = test.values
+                    if isinstance(one, ast.Compare) and isinstance(
+                            one.ops[0], ast.IsNot) and isinstance(
+                                one.comparators[0], ast.Constant) and \
+                            one.comparators[0].value is None and isinstance(
+                                one.left, ast.Name) and isinstance(
+                                    two, ast.UnaryOp) and isinstance(
+                                        two.op, ast.Not) and isinstance(
+                                            two.operand, ast.Call) and \
+                            call_name(two.operand) == 'isinstance' and txt(
+                                two.operand.args[0]) == one.left.id:
+                        types = {t.split('.')[-1] for t in (
+                            [txt(e) for e in two.operand.args[1].elts]
+                            if isinstance(two.operand.args[1], ast.Tuple)
+                            else [txt(two.operand.args[1])])}
+                        if types <= MAPPING_TYPES:
+                            state.vals[one.left.id] = ('mapping',)
+                            return
                 # a rejecting disjunction: the path failed validation
                 if any(_is_validation(v) for v in ast.walk(test)
                        if isinstance(v, ast.Call)):
